@@ -689,10 +689,14 @@ def add_speeds(ctx, prop='C02', direction='le'):
         for cnd, o in c.pc:
             if (show(cnd, an.names)[:100], o) not in rest:
                 continue
-            red = cnd
-            for _ in range(3):
-                red = map_term(red, lambda x: TRUE if x == appl else x)
-            if (red == TRUE and o != '0') or (red == FALSE and o == '0'):
+            def holds_if_applies(cnd_, o_):
+                if cnd_[0] == 'pathset':
+                    return o_ != '0' and any(all(holds_if_applies(cc, oo) for cc, oo in alt) for alt in cnd_[2])
+                red = cnd_
+                for _ in range(3):
+                    red = map_term(red, lambda x: TRUE if x == appl else x)
+                return (red == TRUE and o_ != '0') or (red == FALSE and o_ == '0')
+            if holds_if_applies(cnd, o):
                 continue
             kept.append((show(cnd, an.names)[:100], o))
         rest = kept
